@@ -457,3 +457,61 @@ PROPS["C19"] = dict(
     bounds={"quick": "16 curated + 14 generated key layouts (<= 3 keys per operand + 1 probe key) x 6 operations, interval values: finite or half lines, unbounded bounds; sets over 4+4 candidate keys", "thorough": "600 layouts"},
     outside=["more than 3 keys per operand (trees deeper than 2 branch levels are reached only through the generated layouts)", "value lattices other than intervals", "separate_discrete_domain"],
     assumptions=E2_ASSUME + E1_ASSUME)
+
+# ---------------------------------------------------------------- C11 (backward), C02 (checker verdicts)
+BWD_PROGS = ["bsel", "bsel2", "bdiv", "bloop", "noexit", "straight", "diamond", "loop", "loop2", "selfloop", "irreducible", "unreach", "ops"]
+BWD_SYM = dict(FWD_SYM, bsel="0,1,2", bsel2="0,1,3", bdiv="2,3", bloop="1,2", noexit="0,2")
+
+
+def bwd_job(dom, prog, mode, tier, extra=None, budget=400):
+    args = {"prog": prog, "mode": mode, "sym": BWD_SYM[prog]}
+    if dom != 1:
+        args["sym"] = ",".join(args["sym"].split(",")[:2])
+    if dom in MACHINE_WEIGHT:
+        args["range"] = 3
+    args.update(extra or {})
+    return Job("bwd", args, defines=("DOM=%d" % dom,), budget=budget, what="%s %s on %s" % (mode, prog, DOMS[dom][0]), witnesses=1)
+
+
+def c11_jobs(tier, seed):
+    J = []
+    doms = [1, 2] if tier == "quick" else [1, 2, 3, 5, 12]
+    for pr in BWD_PROGS:
+        for mode in ("error", "error-inv", "good"):
+            for d in doms:
+                J.append(bwd_job(d, pr, mode, tier))
+    return J
+
+
+PROPS["C11"] = dict(
+    jobs=c11_jobs,
+    explanation="The real necessary_preconditions_fixpoint_iterator (reversed-CFG fixpoint, intra_necessary_preconditions_abs_transformer, BackwardAssignOps) is run in error mode (with and without forward invariants) and in good mode (symbolic final condition x <= G) on the program family with symbolic constants; "
+                "the reference interpreter executes the cfg from an arbitrary initial state and records the state at every block entry; for every execution that ends at a violated assertion (resp. reaches the exit in a good final state) z3 decides that every recorded state lies in gamma_obs of the precondition of its block - in particular an empty precondition at the entry block implies that no violating execution exists.",
+    bounds={"quick": "12 skeletons (select with self-referential condition, non-invertible division/remainder/multiplication, assertion inside a loop, loops, diamonds, unreachable blocks), <= 3 symbolic constants, 3 modes, intervals and zones, executions of <= 12 block visits", "thorough": "+ int64 zones, octagons, intervals x zones product"},
+    outside=["domains with their own backward operations in Apron/Elina/Boxes (not built)", "array and reference statements", "programs outside the family"],
+    assumptions=E2_ASSUME)
+
+
+def c02_jobs(tier, seed):
+    J = []
+    # (1) checker on the forward analysis: C01's runs with the checker verdict comparison
+    for pr in FWD_PROGS + ["bsel", "bsel2", "bdiv", "bloop"]:
+        for d in (1, 2, 11):
+            J.append(Job("fwd", {"prog": pr, "wd": 1, "di": 1, "thr": 0, "live": 0, "sym": ",".join(BWD_SYM[pr].split(",")[:3 if d == 1 else 2])}, defines=("DOM=%d" % d,), budget=400,
+                         what="intra_checker verdicts after forward analysis: %s on %s" % (pr, DOMS[d][0]), witnesses=1))
+    # (2) checker on the forward+backward analysis, every fwd_bwd parameter setting
+    settings = [(1, 5, 0), (1, 1, 0), (1, 5, 1), (0, 5, 0)] if tier == "quick" else [(b, r, u) for b in (0, 1) for r in (0, 1, 2, 5) for u in (0, 1)]
+    for pr in BWD_PROGS:
+        for (b, r, u) in settings:
+            for d in ((1, 2) if tier == "quick" else (1, 2, 3, 12)):
+                J.append(bwd_job(d, pr, "fb", tier, {"bwd": b, "refine": r, "refined": u}))
+    return J
+
+
+PROPS["C02"] = dict(
+    jobs=c02_jobs,
+    explanation="intra_checker + assert_property_checker run on (1) the forward analysis and (2) intra_forward_backward_analyzer (every fwd_bwd parameter setting: backward on/off, refinement iterations, refined invariants) over the program family with symbolic constants; "
+                "for every assertion the reference interpreter reaches: verdict SAFE implies the assertion's condition holds on that execution, verdict UNREACHABLE implies it is never reached - decided by z3 for all values on every path.",
+    bounds={"quick": "16 skeletons x {intervals, zones, flat Boolean x intervals} (forward) and 12 skeletons x 4 fwd_bwd settings x {intervals, zones} (forward+backward); <= 3 symbolic constants; executions of <= 14 block visits", "thorough": "all 16 fwd_bwd settings, more domains"},
+    outside=["checker interleaved with the inter-procedural analyses (C09/C10 harnesses)", "reference assertions (assert_ref)", "programs outside the family"],
+    assumptions=E2_ASSUME)
